@@ -36,8 +36,14 @@ from calmjs.parse.ruletypes import (
     BlockComment as RuleTypeBlockComment,
 )
 from calmjs.parse.lexers.es5 import PATT_LINE_CONTINUATION
+from calmjs.parse.unicode_chars import COMBINING_MARK
+from calmjs.parse.unicode_chars import CONNECTOR_PUNCTUATION
 
-required_space = re.compile(r'^(?:\w\w|\+\+|\-\-|\w\$|\$\w|//)$')
+# an identifier may also end with a combining mark or a connector
+# punctuation character
+required_space = re.compile(
+    r'^(?:(?:\w|' + COMBINING_MARK + r'|' + CONNECTOR_PUNCTUATION +
+    r')\w|\+\+|\-\-|\w\$|\$\w|//)$')
 
 # the various assignments symbols; for dealing with pretty spacing
 assignment_tokens = {
